@@ -54,9 +54,9 @@ CHECKS = {
     'C34': ('benum', 'Every call (ploidy 0-2, phased/unphased) in the stated allele ranges incl. all power-of-two boundaries up to the representable maximum, and genotype indices to 1e5 (thorough 1e6): Python packing vs the sliced engine Call/Genotype code run on a JVM.', BE + ' Engine side: sliced Scala compiled with Scala 3.3.4.', BET),
     'C37': ('benum', 'All 2x2 tables with cells <=12 (thorough 20) and genotype triples <=15 (30) through the sliced engine statistics code run on a JVM, against exact rational references.', BE + ' Distribution classes (hypergeometric, chi-square) are exact stand-ins, so what is verified is hail\'s own arithmetic.', BET),
     'C38': ('benum', 'Real VariantDatasetCombiner planning/step/save/load over a provenance-tracking data plane for every (GVCF count, VDS multiset, branch factor, batch size) in the bounds x every crash/resume plan; even genome partitioning on synthetic genomes.', BE, BET),
-    'C14': ('benum', 'Every registered route of the real batch front end (read from its RouteTableDef at run time; an unclassified or undriven route is itself reported) x 9 callers (anonymous, unknown token, inactive, owner, other member, browser session, non-member, developer, auth service; thorough 15) x 7 batch targets (own / other project / deleted / other member\'s / inactive user\'s / with an open update / nonexistent) x 4 billing-project targets x 1-4 request variants incl. replayed tokens, dispatched through the real aiohttp router, CSRF and auth decorators and handlers over the SQL interpreter; outsiders must be refused with the whole database, file store and outbound-call log unchanged, insiders must be served, listings may only show readable rows.', DB, BET),
+    'C14': ('benum', 'Every registered route of the real batch front end (read from its RouteTableDef at run time; an unclassified or undriven route is itself reported) x 9 callers (anonymous, unknown token, inactive, owner, other member, browser session, non-member, developer, auth service; thorough 15) x 7 batch targets (own / other project / deleted / other member\'s / inactive user\'s / with an open update / nonexistent) x 4 billing-project targets x 1-4 request variants incl. replayed tokens, dispatched through the real aiohttp router, CSRF and auth decorators and handlers over the SQL interpreter; outsiders must be refused with the whole database, file store and outbound-call log unchanged, insiders must be served, listings may only show readable rows. History phase: every sequence [request by c] ; [membership / ownership change through the real admin routes: remove / add user, close / reopen project, delete batch, deactivate user, revoke session] ; [request by c] on one front-end process (module state persists within a history, is restored between histories; unresettable new module state is a harness error), judged against the truth after the change.', DB, BET),
     'C09': ('dbmc', 'The real hailtop batch client (Batch.submit with its real retry layer) against the real front-end handlers over the SQL interpreter: every assignment of {delivered once, response lost + retried by the real client, late second delivery, delivered twice} to the <=7 requests of a submission (first / later update, <=3 jobs with dependencies, <=2 nested groups, fast and multi-bunch paths), crossed with a second client\'s update landing at every request and transaction boundary; single batch/update per token, no duplicated jobs, counters recomputed (C01/C06 oracles), contiguous ordered id ranges, client-computed ids equal server ids, and final store equal to the duplicate-free history.', DB, 'bounded-exhaustive enumeration of delivery/retry/interleaving patterns over histories of real client and service operations, differential oracle against the fault-free history'),
-    'C20': ('vloop', 'Real bounded_gather / bounded_gather2 (return_exceptions, raise, cancel_on_error) / OnlineBoundedGather2 / WithoutSemaphore on a virtual loop: every order of task steps for P=1-2, <=3 partial functions with bodies that return / raise after 0-2 yields, caller holding a permit or not, nested second call, caller cancellation at every point; bound, order of results, error contract, cancellation and no-task-left-running judged on every execution.', VL, VLT),
+    'C20': ('vloop', 'Real bounded_gather / bounded_gather2 (return_exceptions, raise, cancel_on_error) / OnlineBoundedGather2 / WithoutSemaphore on a virtual loop: every order of task steps for P=1-2, <=3 partial functions with bodies that return / raise an Exception / raise a BaseException / raise CancelledError / await an inner future a third party cancels, after 0-2 yields, caller holding a permit or not, nested second call, caller cancellation at every point; bound, order of results, error contract, cancellation and no-task-left-running judged on every execution.', VL, VLT),
     'C24': ('vloop', 'Real RateLimiter on a virtual loop with an owned clock: count 1-2, window 1-2 s, 2-3 entrants arriving at 0/0.5/1/2 s, one optional cancellation at each instant; every order of runnable task steps at each instant; an on-line monitor checks the half-open window bound at every admission and that an admission is never later than the earliest instant the rate allows.', VL, VLT),
     'C35': ('benum', 'Every expression DAG up to 5-6 nodes (thorough 6-7) over literals, arithmetic, if/else, let, struct, array, map/filter/fold lambdas, len, and an aggregation/scan sub-grammar, built three ways (Python API, raw IR, raw IR with fresh Ref objects), rendered by the real CSERenderer; the text is read by an independent S-expression reader with its own binding table: every Ref bound in the right value/agg/scan scope and eval(text) == eval(IR object tree) under 3 valuations.', BE + ' The engine is absent: IR semantics is the reference evaluator\'s (no overflow, strict let, lazy if).', BET),
     'C36': ('benum', 'Prefix tree of Table/MatrixTable programs (3 seed datasets x <=2-3 steps of annotate/select/transmute/key_by/filter/explode/aggregate/join/group_by ... x 244 expression templates, 66 literal values): every cached type is cleared and re-inferred from the emitted IR and compared with the type the front end reports for every expression, sub-node, Ref/binder pair, table and matrix table; literals must satisfy their imputed type.', BE, BET),
